@@ -610,6 +610,12 @@ def bad_default_records():
     ]
 
 
+def failing_invalidation_records():
+    """a dependant whose re-default calls user code (default_factory): invalidation itself can then raise"""
+    return [{"name": "CompInvFactory", "attrs": [{"kind": "int", "default": "lit"}, {"kind": "nums", "default": "attr_factory"}, {"kind": "str", "default": "lit"}],
+             "opts": {"invalidated_by": {"nums": ["v"], "s": ["v"]}}}]
+
+
 def validated_item_records():
     return [single("evens", "mut"), composite("CompEvens", [("int", "lit"), ("evens", "mut")])]
 
